@@ -299,6 +299,16 @@ func ssRunC07(ref *ssRef, m ssMut, root string) ssResult {
 	j := ssJudge(stream)
 	res.EndClass = j.End
 	pipe := m.Pipe || m.Tr == "buf" // the whole stream at once
+	// nInter: the requests sent one at a time, each reply read — all of them, none in a pipelined case, the first
+	// m.Stage in a STAGED pipeline (ssMut.Stage), whose rest goes out in one write
+	nInter := len(j.Reqs)
+	if pipe {
+		nInter = 0
+		if m.Stage > 0 && m.Tr != "buf" {
+			nInter = min(m.Stage, len(j.Reqs))
+		}
+	}
+	staged := pipe && nInter > 0
 	trName := m.Tr
 	if trName == "" {
 		trName = "conn"
@@ -417,8 +427,8 @@ func ssRunC07(ref *ssRef, m ssMut, root string) ssResult {
 	var stateWant string
 	eff := newSSEffect(s)
 	var got []wire.Pkt // the replies, in order (sequential mode)
-	if !pipe {
-		for i, q := range j.Reqs {
+	{
+		for i, q := range j.Reqs[:nInter] {
 			before := ""
 			if q.Soft {
 				before = s.state()
@@ -439,17 +449,80 @@ func ssRunC07(ref *ssRef, m ssMut, root string) ssResult {
 		}
 	}
 	rest := stream[j.EndOff:]
-	if pipe {
-		rest = stream
+	if pipe && nInter < len(j.Reqs) {
+		rest = stream[j.Reqs[nInter].Off:] // (nInter == 0: the whole stream)
+	}
+	// sendRest writes the pipelined part.  With Hold / Stall the handler objects are held resp. the server's output
+	// is left unread from just before the write until the server hung up (a stream with a malformed packet; a
+	// server that read the packet and did not hang up within the grace time is waited for no longer: it may
+	// finish what it has queued first) or took the whole write (any other stream), or the bound passed: the
+	// requests in front of the malformed packet are still queued or running when it arrives.
+	sendRest := func() {
+		hold, stall := m.Hold && s.fs != nil, m.Stall
+		if !staged || !(hold || stall) {
+			send(rest)
+			return
+		}
+		if hold {
+			s.fs.Hold()
+		}
+		if stall {
+			s.srv.Stall()
+		}
+		sent := make(chan struct{})
+		go func() { s.srv.Send(rest); close(sent) }()
+		bound := time.After(ssDl(500*time.Millisecond, 100*time.Millisecond))
+		sentC := (<-chan struct{})(sent)
+		var malRead, grace <-chan struct{}
+		if hard {
+			sentC = nil
+			malRead = s.srv.TakenAt(int64(malEnd))
+		}
+	wait:
+		for {
+			select {
+			case <-s.srv.hung:
+				res.Hist = append(res.Hist, "pipeline/held-until/the-server-hung-up")
+				break wait
+			case <-malRead:
+				malRead = nil
+				g := make(chan struct{})
+				// (with the output left unread the server cannot hang up at all while a write of its own is stuck:
+				// what matters then is only that its queues were full when the packet came)
+				d := ssDl(100*time.Millisecond, 30*time.Millisecond)
+				if !hold {
+					d = 10 * time.Millisecond
+				}
+				time.AfterFunc(d, func() { close(g) })
+				grace = g
+			case <-grace:
+				res.Hist = append(res.Hist, "pipeline/held-until/the-server-had-read-the-malformed-packet-and-not-hung-up/"+j.End)
+				break wait
+			case <-sentC:
+				res.Hist = append(res.Hist, "pipeline/held-until/the-server-took-the-whole-write")
+				break wait
+			case <-s.srv.done:
+				res.Hist = append(res.Hist, "pipeline/held-until/serve-returned")
+				break wait
+			case <-bound:
+				res.Hist = append(res.Hist, "pipeline/held-until/the-bound(pipeline-deeper-than-the-server-takes-while-held)")
+				break wait
+			}
+		}
+		s.srv.Resume()
+		if hold {
+			s.fs.Release()
+		}
+		<-sent // (Send has its own deadline)
 	}
 	switch {
 	case dead:
 		s.srv.CloseInput()
 	case !hard:
-		send(rest)
+		sendRest()
 		s.srv.CloseInput()
 	default:
-		send(rest)
+		sendRest()
 		// the server must stop on its own after a malformed packet.  A healthy server does so within
 		// milliseconds; when the short deadline expires the case waits on (stream still open) up to the
 		// hang deadline before it is judged, so that a starved machine is not mistaken for a server
@@ -472,14 +545,22 @@ func ssRunC07(ref *ssRef, m ssMut, root string) ssResult {
 	}
 	if pipe {
 		// accept any prefix (F5), never a wrong, reordered, duplicated or surplus response
-		if len(extra) > len(j.Reqs) {
-			res.Findings = append(res.Findings, ssFinding{Key: malKey("extra-response"), What: "more responses than well-formed requests", Expected: fmt.Sprint(len(j.Reqs)), Actual: fmt.Sprint(len(extra))})
-			extra = extra[:len(j.Reqs)]
+		rem := j.Reqs[nInter:]
+		if len(extra) > len(rem) {
+			res.Findings = append(res.Findings, ssFinding{Key: malKey("extra-response"), What: "more responses than well-formed requests", Expected: fmt.Sprint(len(rem)), Actual: fmt.Sprint(len(extra))})
+			extra = extra[:len(rem)]
 		}
 		for i, rep := range extra {
-			check(i, j.Reqs[i], rep, "")
+			check(nInter+i, rem[i], rep, "")
 		}
-		answered = len(j.Reqs) // all received frames are processed before Serve returns
+		if staged && !dead {
+			// how many of the pipelined requests were still unanswered when the output ended (they were queued or
+			// running when the server hung up resp. the stream ended)
+			res.Hist = append(res.Hist, fmt.Sprintf("pipeline/%s/pipelined-requests-left-unanswered/%d", j.End, ssBucket(len(rem)-len(extra))))
+		}
+		if !dead {
+			answered = len(j.Reqs) // all received frames are processed before Serve returns
+		}
 	} else if len(extra) > 0 && !dead {
 		res.Findings = append(res.Findings, ssFinding{Key: malKey("extra-response"), What: "a response was emitted that answers no well-formed request (reply to the malformed tail)", Expected: "nothing after the last well-formed request's reply", Actual: ssReplyText(extra[0])})
 	}
@@ -490,7 +571,16 @@ func ssRunC07(ref *ssRef, m ssMut, root string) ssResult {
 		if nA > 0 {
 			want = ref.States[nA-1]
 		}
-		if got := s.state(); got != want {
+		// (a staged pipeline runs READs and WRITEs on several workers: the order of their handler calls in the
+		// log is the schedule's — ssPipeCanon)
+		canon := func(st string) string {
+			if staged && k == "rs" {
+				return ssPipeCanon(st)
+			}
+			return st
+		}
+		want = canon(want)
+		if got := canon(s.state()); got != want {
 			stateDiff = &ssFinding{Key: malKey("state-changed-by-malformed"), What: fmt.Sprintf("after the run the served files / handler log differ from the reference run cut before the malformed packet (stream end class %q, transport %s)", j.End, trName),
 				Expected: ssDiffText(want, got, "-"), Actual: ssDiffText(got, want, "+")}
 			stateWant = want
@@ -543,7 +633,7 @@ func ssRunC07(ref *ssRef, m ssMut, root string) ssResult {
 		// leaves the expected state, the packet was refused all right and the server went on to execute
 		// what followed it.
 		if hard && malEnd < len(stream) && !res.Exit {
-			if st, ok := ssRunCutBehind(cfg, root, m.Tr, pipe, stream[:malEnd], j, &res); ok && st == stateWant {
+			if st, ok := ssRunCutBehind(cfg, root, m.Tr, pipe, nInter, stream[:malEnd], j, &res); ok && (st == stateWant || (staged && k == "rs" && ssPipeCanon(st) == stateWant)) {
 				stateDiff.Key = fmt.Sprintf("%s/requests-behind-malformed-executed/%s", k, j.End)
 				stateDiff.What = fmt.Sprintf("the server went on serving behind a malformed packet (stream end class %q, transport %s): the same stream cut right behind that packet leaves the served files / handler log as the reference run cut before it does, the whole stream does not — the %d bytes that follow the packet were acted upon", j.End, trName, len(stream)-malEnd)
 			}
@@ -556,7 +646,7 @@ func ssRunC07(ref *ssRef, m ssMut, root string) ssResult {
 // ssRunCutBehind runs cut — a judged stream that ends with its malformed packet — on a fresh server of the
 // same configuration and transport (the well-formed requests one at a time, each reply read, then the
 // malformed packet; pipe: all at once), ends the input and returns the state Serve left.
-func ssRunCutBehind(cfg ssCfg, root, tr string, pipe bool, cut []byte, j ssJudged, res *ssResult) (string, bool) {
+func ssRunCutBehind(cfg ssCfg, root, tr string, pipe bool, stage int, cut []byte, j ssJudged, res *ssResult) (string, bool) {
 	var feed []byte
 	if tr == "buf" {
 		feed = cut
@@ -568,10 +658,14 @@ func ssRunCutBehind(cfg ssCfg, root, tr string, pipe bool, cut []byte, j ssJudge
 	}
 	switch {
 	case tr == "buf":
-	case pipe:
+	case pipe && stage <= 0:
 		s.srv.Send(cut)
 	default:
-		for _, q := range j.Reqs {
+		n := len(j.Reqs) // (a staged pipeline: the first stage requests one at a time, the rest at once)
+		if pipe {
+			n = min(stage, n)
+		}
+		for _, q := range j.Reqs[:n] {
 			s.srv.Send(cut[q.Off : q.Off+q.Len])
 			if _, err := s.srv.Recv(ssDlHang()); err != nil {
 				res.Exit, res.Slow = err == errSSTimeout, err == errSSTimeout
@@ -579,7 +673,11 @@ func ssRunCutBehind(cfg ssCfg, root, tr string, pipe bool, cut []byte, j ssJudge
 				return "", false
 			}
 		}
-		s.srv.Send(cut[j.EndOff:])
+		if n < len(j.Reqs) {
+			s.srv.Send(cut[j.Reqs[n].Off:])
+		} else {
+			s.srv.Send(cut[j.EndOff:])
+		}
 	}
 	s.srv.CloseInput()
 	var tmp ssResult
@@ -589,6 +687,27 @@ func ssRunCutBehind(cfg ssCfg, root, tr string, pipe bool, cut []byte, j ssJudge
 		return "", false
 	}
 	return s.state(), true
+}
+
+// ssPipeCanon: the state text of a request-server session (handler call log, "--", tree dump) with the ReadAt /
+// WriteAt lines of the log moved behind the others and sorted.  READs and WRITEs of a pipeline run on several
+// workers, next to the one worker that runs everything else in order: which of their handler calls is logged
+// first is the schedule's choice, not the server's.
+func ssPipeCanon(st string) string {
+	log, dump, ok := strings.Cut(st, "\n--\n")
+	if !ok {
+		return st
+	}
+	var cmd, rw []string
+	for _, l := range strings.Split(log, "\n") {
+		if strings.HasPrefix(l, "ReadAt #") || strings.HasPrefix(l, "WriteAt #") {
+			rw = append(rw, l)
+		} else {
+			cmd = append(cmd, l)
+		}
+	}
+	sort.Strings(rw)
+	return strings.Join(append(cmd, rw...), "\n") + "\n--\n" + dump
 }
 
 func ssFirstSlack(reqs []ssReq) int {
@@ -1122,6 +1241,9 @@ func (j *ssPJob) class() string {
 			cl = j.Kind + "/" + j.Cfg.Kind + "-" + j.Mut.Tr
 		}
 		cl += "/" + j.Mut.Kind
+		if j.Mut.Stage > 0 { // staged pipelines (held handlers, unread replies) are a class of their own too
+			cl += "+staged"
+		}
 	case j.End != nil:
 		cl += "/" + j.End.Mode
 	}
@@ -1358,6 +1480,12 @@ func (c *ssCollector) done(i int, j *ssPJob, res *ssResult) {
 func (c *ssCollector) confirm(perKey int) {
 	seen := map[string]int{}
 	stderrOf := c.stderrOf
+	// cases whose outcome does not depend on the schedule first (staged pipelines with held handlers): they are
+	// the ones a key's reported inputs should be
+	sort.SliceStable(c.crashed, func(a, b int) bool {
+		held := func(i int) bool { m := c.jobs[i].Mut; return m != nil && m.Hold }
+		return held(c.crashed[a]) && !held(c.crashed[b])
+	})
 	for _, i := range c.crashed {
 		j := c.jobs[i]
 		key, head := ssCrashKey(j.Cfg, stderrOf[i])
